@@ -157,7 +157,8 @@ def o_c04(cimp, ctx):
         bidx = [i for i, o in enumerate(ops) if o["op"] == "build"]
         me = bidx[ctx["bi"]]
         immediately = me > 0 and ops[me - 1]["op"] == "build" and pop["tasks"] == ctx["op"]["tasks"]
-        if immediately and not pop["cfg"]["dry_run"]:
+        # (in a forced build a task runs whether it needs to or not: its failure says nothing about need)
+        if immediately and not pop["cfg"]["dry_run"] and not pop["cfg"]["force"]:
             for t, o in pc["reports"]:
                 if o == O["FAIL"] and rep.get(t) == O["SKIP_UNCHANGED"]:
                     # F24: the function raised only after it had written all its products - with the content
